@@ -1608,6 +1608,7 @@ class World(object):
         st.store = Store('dest', vals=vals, raw=True, route='set_val_raw', modes_from=('slot', d),
                          fmt_req=fmt)
         st.redo = lambda t, src: t.set_val(V.carrier(op['val']), raw=True)
+        st.extra['val'] = op['val']
         yield
         st.ret = self.obj(d).set_val(V.carrier(op['val']), raw=True)
         self.fresh_buffer(d)
